@@ -1,0 +1,16 @@
+//go:build verif
+// +build verif
+
+package gemmill
+
+import "github.com/dappledger/AnnChain/gemmill/consensus/pbft"
+
+// VerifAsmClose releases what an Angine assembled by VerifAsmNew holds when it was never started:
+// the consensus write-ahead log (autofile group + ticker goroutine), plugins, refuse list, archive and
+// databases (Angine.Destroy).
+func (ang *Angine) VerifAsmClose() {
+	if cs, ok := ang.consensus.(*pbft.ConsensusState); ok && !cs.IsRunning() {
+		cs.VerifStopWAL()
+	}
+	ang.Destroy()
+}
